@@ -123,6 +123,9 @@ CANARIES = [
     ('node-keeps-freed-page-id', 'C05', 'src/node.rs', '            tx_freelist.free(self.page_id, self.num_pages);\n            self.page_id = 0;', '            tx_freelist.free(self.page_id, self.num_pages);'),
     ('node-num-pages-off', 'C05', 'src/node.rs', '        self.num_pages = page.overflow + 1;\n        Ok(page)', '        self.num_pages = page.overflow;\n        Ok(page)'),
     ('deleted-node-written', 'C05', 'src/node.rs', '        if self.deleted {\n            return Ok(());\n        }\n        self.spilled = true;', '        self.spilled = true;'),
+    ('from-page-forgets-overflow', 'C05', 'src/node.rs', '            num_pages: p.overflow + 1,', '            num_pages: 1,'),
+    ('from-leaf-value-is-key', 'C07', 'src/node.rs', 'Node::TYPE_DATA => Leaf::Kv(Bytes::Slice(l.key()), Bytes::Slice(l.value())),', 'Node::TYPE_DATA => Leaf::Kv(Bytes::Slice(l.key()), Bytes::Slice(l.key())),'),
+    ('from-page-original-key-off', 'C05', 'src/node.rs', '        let original_key = if data.len() > 0 {\n            Some(data.first_key())\n        } else {\n            None\n        };\n        Node {\n            id,\n            page_id: p.id,', '        let original_key = if data.len() > 1 {\n            Some(data.first_key())\n        } else {\n            None\n        };\n        Node {\n            id,\n            page_id: p.id,'),
     ('getter-counts-lookups', 'C01', 'src/bucket.rs', '            if !exists {\n                if should_create {\n                    self.meta.next_int += 1;', '            self.meta.next_int += 1;\n            if !exists {\n                if should_create {'),
 ]
 
